@@ -386,6 +386,32 @@ class NTM(NT1):
     __slots__ = ()
 
 
+def _make_hook_entry():
+    from optree.accessor import PyTreeEntry
+
+    class HookEntry(PyTreeEntry):
+        """A user-supplied path entry type: the engine constructs one per path step when it builds accessors, so its
+        construction is one more engine -> Python callback (yield / fault / re-entry point)."""
+
+        __slots__ = ()
+
+        def __post_init__(self):
+            _h('entry.__post_init__')
+            PyTreeEntry.__post_init__(self)
+
+        def __call__(self, obj):
+            return obj.children[self.entry]
+
+        def codify(self, node=''):
+            return '%s.children[%r]' % (node, self.entry)
+
+    HookEntry.__module__ = __name__
+    HookEntry.__qualname__ = 'HookEntry'
+    return HookEntry
+
+
+HookEntry = _make_hook_entry()
+
 MALFORMS = ('len1', 'len4', 'noniter', 'entries_len', 'entries_short', 'entries_empty', 'entries_short_gen', 'entries_noniter', 'not_tuple')
 STRUCTSEQ_TYPES = (time.struct_time,)
 
